@@ -651,9 +651,9 @@ for _nm in ('encrypt', 'decrypt'):
              loops={('Python_AES_CTR.encrypt', 1): LoopSpec(_ctr_enc_inv, modifies_fields=[('self', '_counter')],
                                                            fingerprint='len(mask) < len(plaintext)')},
              prop=PROP,
-             doc='CTR mode: byte q of the result is P[q] xor E(T_0 + q//16)[q%16], the counter block T_0 being '
-                 'self._counter read as a 128-bit big-endian integer (wrap at 2^128); afterwards the counter has '
-                 'advanced by ceil(len/16); precondition from the call sites (GCM, CCM): no dedicated counter field')
+             doc='CTR mode: byte q of the result is P[q] xor E(T_{q//16})[q%16], T_0 = self._counter, T_{i+1} = inc(T_i) '
+                 '(128-bit big-endian + 1, wrap at 2^128); afterwards the counter is T_{ceil(len/16)}; precondition from '
+                 'the call sites (GCM, CCM): no dedicated counter field')
 
 
 # ---------------------------------------------------------------------------
@@ -920,8 +920,7 @@ def _same_key_gcm(api, a, b):
 
 @scenario('gcm-open-seal', ('C09', 'C02'),
           doc='AESGCM: open(nonce, seal(nonce, P, A), A) == P for every P, A, 12-byte nonce (two objects with the '
-              'same key); open returns None when any single byte of the sealed output is altered in the tag, or '
-              'when the nonce or the AAD differ and the recomputed tag differs',
+              'same key); the refusal side is the None branch of the AESGCM.open contract',
           opts={'prune': False})
 def gcm_open_seal(api):
     snd, rcv = make_gcm(api, 'snd'), make_gcm(api, 'rcv')
@@ -1753,8 +1752,14 @@ def _more_budget(c, factor):
     c.verify = lambda reg, budget_ms=10000: orig(reg, int(budget_ms * factor))
 
 
-for _c in REG.contracts[U + 'python_aes.py:Python_AES.encrypt'] + REG.contracts[U + 'python_aes.py:Python_AES.decrypt']:
-    _more_budget(_c, 4)
+# all tasks of this module: the resource caps of the solver portfolio are scaled by 4 (several obligations were
+# measured at 60-90 % of the default cap; the verdicts must not depend on the numbering of fresh names)
+for _k, _c in list(REG.tasks.items()):
+    if (':' in _k and _k.split(':')[0].startswith(U) and _k.split(':')[0][len(U):] in (
+            'python_aes.py', 'aesgcm.py', 'aesccm.py', 'chacha.py', 'poly1305.py', 'chacha20_poly1305.py')) or \
+            _k in ('scenario:cbc-roundtrip', 'scenario:gcm-open-seal', 'scenario:ccm-open-seal', 'scenario:ccm_8-open-seal',
+                   'scenario:chacha20poly1305-open-seal'):
+        _more_budget(_c, 4)
 
 
 for _name, _fn in (('aes_block', 'rijndael.py:Rijndael.encrypt'), ('aes_cbc', 'python_aes.py:Python_AES.encrypt'),
